@@ -1,7 +1,11 @@
 #!/bin/bash
-# usage: lock.sh <prop>...   (re)creates the lock entries: obligations proved in two consecutive runs, each well inside the quick budget
+# usage: lock.sh [-t thorough] <prop>...   (re)creates the lock entries: obligations proved in two consecutive runs,
+# each well inside its solver budget.  With -t thorough the thorough-tier items are attempted (and locked) too;
+# a later quick lock keeps them (they are reported as deferred in quick runs).
 cd /verif
+tier=quick
+if [ "$1" = "-t" ]; then tier="$2"; shift 2; fi
 for p in "$@"; do
-  ./check "$p" quick -write-lock -no-evidence >/dev/null 2>&1
-  GOVC_LOCK_INTERSECT=1 ./check "$p" quick -write-lock -no-evidence 2>&1 | grep "^lock:"
+  ./check "$p" $tier -write-lock -no-evidence >/dev/null 2>&1
+  GOVC_LOCK_INTERSECT=1 ./check "$p" $tier -write-lock -no-evidence 2>&1 | grep "^lock:"
 done
